@@ -47,6 +47,19 @@ variable (k : Nat) (pre : Bytes)
     mkTok ty v (s.shift k pre) (e.shift k pre) = shiftR k pre (mkTok ty v s e) := by
   simp [mkTok, shiftR, shiftTok]
 
+@[simp] theorem mkTokAt_shift (ty : TokType) (v : Bytes) (s e : Z) (stop : Pos) :
+    mkTokAt ty v (s.shift k pre) (shiftPos k pre.length stop) (e.shift k pre) =
+      shiftR k pre (mkTokAt ty v s stop e) := by
+  simp [mkTokAt, shiftR, shiftTok]
+
+@[simp] theorem textStop_shift (z e : Z) :
+    textStop (z.shift k pre) (e.shift k pre) = shiftPos k pre.length (textStop z e) := by
+  simp only [textStop, between_shift]
+  split
+  · exact position_shift k pre e
+  · simp only [shiftPos, shift_line, shift_col, shift_before, List.length_append, Pos.mk.injEq, true_and]
+    omega
+
 @[simp] theorem advWhileF_shift (p : UInt8 → Bool) (n : Nat) (z : Z) :
     advWhileF p n (z.shift k pre) = (advWhileF p n z).shift k pre := by
   induction n generalizing z with
@@ -188,7 +201,7 @@ theorem followsAmountNumber_shift (pre' : Bytes) (z : Z) :
   simp [scanNumber]
 
 @[simp] theorem scanAccount_shift (z : Z) : scanAccount (z.shift k pre) = shiftR k pre (scanAccount z) := by
-  simp only [scanAccount, shift_after, scanAccountF_shift, between_shift, mkTok_shift]
+  simp only [scanAccount, shift_after, scanAccountF_shift, between_shift, position_shift, mkTokAt_shift]
 
 @[simp] theorem scanDirectiveOrAccount_shift (z : Z) :
     scanDirectiveOrAccount (z.shift k pre) = shiftR k pre (scanDirectiveOrAccount z) := by
